@@ -256,6 +256,13 @@ def monitor_c20(rep, n, pid="C20"):
             if a["nb"]["kind"] != "tank":       # neighbours whose answers depend on volumes only in both configurations
                 a["nb"] = {"kind": "tank", "cap": a["nb"]["lim"][0], "init": (F(0), [F(0)] * len(c["adds"]), [F(0)] * len(c["nons"]))}
         part = K.Part(c["adds"], c["nons"])
+        if ci % 2 == 1:
+            # diagrams with gaps (a delay whose predecessor is unused) and a history long enough for every fraction to fall due
+            c["ta"] = r.choice([[(0, F(1, 2)), (3, F(1, 2))], [(0, F(2, 5)), (4, F(3, 5))], [(1, F(1, 2)), (3, F(1, 2))], [(0, F(1, 4)), (2, F(1, 4)), (5, F(1, 2))]])
+            c["ops"] = [op for op in c["ops"] if op[0] not in ("override", "reinit")]
+            for _ in range(r.randint(5, 9)):
+                c["ops"] += [("pushta", K.push_amount(r, part, c["cap"]))] if r.random() < 0.6 else []
+                c["ops"] += [("discharge",), ("end", F(r.choice([5, 12, 20])))]
 
         def requality(v):
             return (v[0], [F(r.randint(0, 9), 10) * v[0] for _ in v[1]], [F(r.randint(0, 30)) for _ in v[2]])
